@@ -88,7 +88,7 @@ class Withdraw:
             amt_v = proj(ret, ("f", "amount"))
             info_v = proj(ret, ("f", "info"))
             r = self.T.var("r%d" % k)
-            env = {proj(item, ("f", "amount")): r, ("param", w.path, self.amount_i): self.a}
+            env = {proj(item, ("f", "amount")): r, common.param_value(w, self.amount_i): self.a}
             # the total supply value
             for b, v in ti:
                 env[proj(proj(proj(("call", w.path, None, None, ()), ("v", "Continue")), ("f", 0)), ("f", "total_supply"))] = self.S
